@@ -216,7 +216,7 @@ var lexPieces = []string{
 	"\v", "\f", "\u0085", "\u00a0", "\u2003", "\u3000", "\u2028", "\ufeff", "\u200b", "1s500µ", "2ms250µ",
 	// spellings a lenient scanner might take for one token: exponents, a minus inside a name, a quoted part glued to a
 	// bare one, comments without a blank behind the dashes
-	"e", "E", "1e", "1e6", "1e+x", "2.5E-3", "7e+", "3.5e-)", "e+", "1E-", "b-c", "cpu-total", "x-1", "\"a\"b", "\"q\"\"r\"", "a\"b\"", "--c", "--1", "1--1", "/*/", "/*/*/", "/*/ x */", "0x1F", "1_000", "1.e5", ".e1",
+	"5M", "1H30m", "10S", "7U", "9NS", "2D", "3W", "5Ms", "1µS", "`bq`", "`a b`", "e", "E", "1e", "1e6", "1e+x", "2.5E-3", "7e+", "3.5e-)", "e+", "1E-", "b-c", "cpu-total", "x-1", "\"a\"b", "\"q\"\"r\"", "a\"b\"", "--c", "--1", "1--1", "/*/", "/*/*/", "/*/ x */", "0x1F", "1_000", "1.e5", ".e1",
 }
 
 func lexRandom(o *out, r *rng, n int, direct bool) {
@@ -499,7 +499,8 @@ func c05EscapesAndRuns(o *out) {
 func c05HistoryIndependence(o *out, r *rng) {
 	texts := []string{"'cpu' value", "\"bad", "'open", "SELECT", "x 'a'", "'a\\qb' x", "\"q\" 'v' z", "SELECT v FROM m WHERE", "\n\n  'late'", "a\n'b", "1.5.5", "SELECT * FROM cpu\nWHERE x = 'y'\nAND", "", " ", "'", "\"",
 		"f('x'", "$", "SELECT 'a' FROM 'b'", "DROP 'x'", "/* c */ 'x'", "-- c\n'x'",
-		"SELECT \"caf\xe9\xe8\" FRM cpu", "\xff\xfe\xfd x 'open", "a \xc3\xc3\xc3 'b' c)", "SELECT v\r\rFROM\rm WHERE"}
+		"SELECT v FROM m WHERE h =~ /(/", "SELECT v FROM /(/", "SELECT v\nFROM m\nWHERE h !~ /(/ AND x = 1", "SELECT f(/(/) FROM m", "      SELECT v FROM m GROUP BY /(/", "SELECT v FROM m WHERE a =~ /[/ OR b =~ /(/",
+		"value > $threshold", "f($x) + 1", "$\"multi word\" + 1", "SELECT \"caf\xe9\xe8\" FRM cpu", "\xff\xfe\xfd x 'open", "a \xc3\xc3\xc3 'b' c)", "SELECT v\r\rFROM\rm WHERE"}
 	// more distinct regular expressions than any small cache holds, the first ones again at the end
 	for i := 0; i < 150; i++ {
 		texts = append(texts, fmt.Sprintf("SELECT v FROM m WHERE h =~ /^host%d$/ AND g !~ /x%d/", i, i*7))
